@@ -601,23 +601,17 @@ private:
 
   void process_local_nodes() {
     auto tail_stamp = queue.tail_stamp();
-    std::size_t cnt = 0;
-    auto* cur = first_retired_node;
-    for (deletable_object_with_stamp* next = nullptr; cur != nullptr; cur = next) {
-      next = cur->next;
-      if (cur->stamp <= tail_stamp) {
-        cur->delete_self();
-        ++cnt;
-      } else {
-        break;
+    // Unlink every node before it is deleted: a deleter may retire further objects (and thereby
+    // re-enter this function or process_global_nodes), which must not see the node again.
+    while (first_retired_node != nullptr && first_retired_node->stamp <= tail_stamp) {
+      auto* cur = first_retired_node;
+      first_retired_node = cur->next;
+      if (first_retired_node == nullptr) {
+        prev_retired_node = &first_retired_node;
       }
+      --number_of_retired_nodes;
+      cur->delete_self();
     }
-
-    first_retired_node = cur;
-    if (cur == nullptr) {
-      prev_retired_node = &first_retired_node;
-    }
-    number_of_retired_nodes -= cnt;
   }
 
   void process_global_nodes() {
